@@ -2,9 +2,12 @@
   C03 — Every match location (path, parts, pointer, parent) identifies exactly that node.
 
   Object identity is modelled as location identity (documents are trees). The path-as-query round
-  trip goes through the lexer/parser, which is tied by correspondence, not modelled here.
+  trip goes through the character-level lexer model, literal decoding and the parser model
+  (`path_as_query`): the normalized path of a location compiles to the singular query of that
+  location, and that query selects exactly the node there.
 -/
 import JP.Lemmas.Locate
+import JP.Lemmas.PathQuery
 namespace JP.Props.C03
 open JP JP.Query JP.Pointer JP.Lemmas
 
@@ -17,6 +20,24 @@ theorem match_located (rx : Rx) (segs : List Seg) (doc extra : J) (hwf : doc.wf 
     ∀ n ∈ finditer rx ⟨segs, false⟩ doc extra,
       ∃ loc, n.parts = locParts loc ∧ n.path = Rfc.normalizedPath loc ∧ locValue doc loc = some n.val :=
   Lemmas.match_located rx segs doc extra hwf hp hw
+
+/-- The same for every well-typed standard query, **filters at any depth included** (via the refinement
+    of C02 and the fact that every node the RFC interpreter yields is a node of the document). -/
+theorem match_located_typed (rx : Rx) (segs : List Seg) (doc extra : J) (hwf : doc.wf = true)
+    (hwt : Rfc.wtSegs segs = true) :
+    ∀ n ∈ finditer rx ⟨segs, false⟩ doc extra,
+      ∃ loc, n.parts = locParts loc ∧ n.path = Rfc.normalizedPath loc ∧ locValue doc loc = some n.val :=
+  Lemmas.match_located_typed rx segs doc extra hwf hwt
+
+/-- **The path, evaluated as a query, returns exactly that one value.** For every location `loc` of the
+    document: (1) its normalized path is the text the serializer prints for the singular query walking
+    `loc`; (2) compiling that text — lexer model, literal decoding, parser model — gives that query;
+    (3) the query selects exactly one node: the one at `loc`, with the same parts, path and value. -/
+theorem path_as_query (pr : Surface.Prec) (hpr : Surface.precOK pr = true) (uw : Char → Bool) (rx : Rx)
+    (doc extra v : J) (loc : List Rfc.LStep) (hwf : doc.wf = true) (h : locValue doc loc = some v) :
+    Lex.compileText pr ⟨Lex.dflt, uw⟩ (Rfc.normalizedPath loc) = some ⟨Lemmas.segsOfLoc loc, false⟩ ∧
+    finditer rx ⟨Lemmas.segsOfLoc loc, false⟩ doc extra = [⟨locParts loc, Rfc.normalizedPath loc, v⟩] :=
+  ⟨Lemmas.normalizedPath_compiles pr hpr uw loc, Lemmas.segsOfLoc_selects rx doc extra v loc hwf h⟩
 
 /-- Two normalized paths are equal if and only if they denote the same location. -/
 theorem equal_paths_iff_same_node (a b : List Rfc.LStep) :
